@@ -12,6 +12,7 @@ import (
 	"os/exec"
 	"path/filepath"
 	"sort"
+	"strconv"
 	"strings"
 	"sync"
 	"testing"
@@ -75,7 +76,9 @@ type ftx struct {
 type dest struct {
 	spk
 	Amount uint64 `json:"amount"`
-	Fmt    int    `json:"fmt"` // how the amount is written
+	Fmt    int    `json:"fmt"`             // how the amount is written
+	Lead   int    `json:"lead,omitempty"`  // spaces in front of the pair / the batch line
+	Trail  int    `json:"trail,omitempty"` // spaces behind it
 }
 
 type rawIn struct {
@@ -90,20 +93,23 @@ type txCase struct {
 	Unspent [][2]int `json:"unspent"` // (funding tx, vout) listed in unspent.txt, in this order
 	Mode    string   `json:"mode"`    // send | batch | both | raw
 
-	Send    []dest  `json:"send,omitempty"`
-	Batch   []dest  `json:"batch,omitempty"`
-	SubFee  bool    `json:"subfee,omitempty"`  // -f
-	Change  *spk    `json:"change,omitempty"`  // -change
-	Msg     string  `json:"msg,omitempty"`     // -msg
-	Seq     *int64  `json:"seq,omitempty"`     // -seq
-	Lock    *uint32 `json:"lock,omitempty"`    // -locktime
-	TxVer   *uint32 `json:"txver,omitempty"`   // -txver
-	UseAll  bool    `json:"useall,omitempty"`  // -useallinputs
-	FeeFlag string  `json:"feeflag,omitempty"` // -fee
-	RFC6979 bool    `json:"rfc6979,omitempty"` //
-	MinSig  bool    `json:"minsig,omitempty"`  //
-	TxFn    bool    `json:"txfn,omitempty"`    // -txfn out.txt
-	NoApply bool    `json:"noapply,omitempty"` // -a=false
+	Send         []dest  `json:"send,omitempty"`
+	Batch        []dest  `json:"batch,omitempty"`
+	BatchCRLF    bool    `json:"batchcrlf,omitempty"`    // batch file lines end with CR LF
+	BatchNoNL    bool    `json:"batchnonl,omitempty"`    // the last line of the batch file has no line end
+	BatchComment int     `json:"batchcomment,omitempty"` // bit i: a comment line "#...=..." stands before line i
+	SubFee       bool    `json:"subfee,omitempty"`       // -f
+	Change       *spk    `json:"change,omitempty"`       // -change
+	Msg          string  `json:"msg,omitempty"`          // -msg
+	Seq          *int64  `json:"seq,omitempty"`          // -seq
+	Lock         *uint32 `json:"lock,omitempty"`         // -locktime
+	TxVer        *uint32 `json:"txver,omitempty"`        // -txver
+	UseAll       bool    `json:"useall,omitempty"`       // -useallinputs
+	FeeFlag      string  `json:"feeflag,omitempty"`      // -fee
+	RFC6979      bool    `json:"rfc6979,omitempty"`      //
+	MinSig       bool    `json:"minsig,omitempty"`       //
+	TxFn         bool    `json:"txfn,omitempty"`         // -txfn out.txt
+	NoApply      bool    `json:"noapply,omitempty"`      // -a=false
 
 	RawVer  uint32  `json:"rawver,omitempty"`
 	RawLock uint32  `json:"rawlock,omitempty"`
@@ -246,7 +252,9 @@ func addressOf(s []byte, testnet bool) string {
 
 func amountString(v uint64, f int) string {
 	s := fmt.Sprintf("%d.%08d", v/100000000, v%100000000)
-	switch f % 3 {
+	// every form here is one btc.StringToSatoshis accepts: digits, optionally a point and up to 8 decimals
+	// (a form without digits before the point, an exponent or a sign is refused by the wallet and not generated)
+	switch f % 6 {
 	case 1: // without trailing zeros
 		s = strings.TrimRight(s, "0")
 		s = strings.TrimSuffix(s, ".")
@@ -254,8 +262,32 @@ func amountString(v uint64, f int) string {
 		if strings.HasSuffix(s, "0") {
 			s = s[:len(s)-1]
 		}
+	case 3: // without trailing zeros, the point kept ("5.")
+		s = strings.TrimRight(s, "0")
+	case 4: // zeros in front
+		s = "00" + s
+	case 5: // zeros in front, none behind
+		s = "0" + strings.TrimSuffix(strings.TrimRight(s, "0"), ".")
 	}
 	return s
+}
+
+// floatFragile tells whether the amount, written with 8 decimals, is one of the values for which the tempting
+// float64 conversion uint64(ParseFloat(s)*1e8) comes out one satoshi too low.  (Generation side only: it steers
+// the generator towards such values; the oracle is integer arithmetic.)
+func floatFragile(v uint64) bool {
+	f, err := strconv.ParseFloat(fmt.Sprintf("%d.%08d", v/100000000, v%100000000), 64)
+	return err == nil && uint64(f*1e8) != v
+}
+
+// nextFragile returns the first float-fragile amount in [v, v+400], or v when there is none (about 6% are).
+func nextFragile(v uint64) uint64 {
+	for k := v; k <= v+400; k++ {
+		if floatFragile(k) {
+			return k
+		}
+	}
+	return v
 }
 
 // parseAmount reads the decimal BTC strings this file writes (reference side of -fee / fee=).
@@ -685,7 +717,7 @@ func checkCase(c txCase) (info caseInfo, err error) {
 	if len(c.Send) > 0 {
 		var parts []string
 		for i, d := range c.Send {
-			parts = append(parts, addressOf(script(d.spk), c.W.Testnet)+"="+amountString(d.Amount, d.Fmt))
+			parts = append(parts, strings.Repeat(" ", d.Lead)+addressOf(script(d.spk), c.W.Testnet)+"="+amountString(d.Amount, d.Fmt)+strings.Repeat(" ", d.Trail))
 			am := d.Amount
 			if c.SubFee && i == 0 {
 				// documented: -f lowers the first amount by the fee
@@ -700,8 +732,21 @@ func checkCase(c txCase) (info caseInfo, err error) {
 	}
 	if len(c.Batch) > 0 {
 		var b strings.Builder
-		for _, d := range c.Batch {
-			fmt.Fprintf(&b, "%s=%s\n", addressOf(script(d.spk), c.W.Testnet), amountString(d.Amount, d.Fmt))
+		// what parse_batch accepts: one "address=amount" per line, spaces allowed at both ends of a line, lines
+		// ended by LF or CR LF, the last one also by the end of the file, comment lines "#...=..." (a line without
+		// '=' - also an empty one - is an error and not generated)
+		eol := "\n"
+		if c.BatchCRLF {
+			eol = "\r\n"
+		}
+		for i, d := range c.Batch {
+			if c.BatchComment>>uint(i)&1 == 1 {
+				b.WriteString([]string{"# note=1", "#=", "#1BitcoinEaterAddressDontSendf59kuE=0.5", " # spaces = in front"}[i%4] + eol)
+			}
+			fmt.Fprintf(&b, "%s%s=%s%s", strings.Repeat(" ", d.Lead), addressOf(script(d.spk), c.W.Testnet), amountString(d.Amount, d.Fmt), strings.Repeat(" ", d.Trail))
+			if i < len(c.Batch)-1 || !c.BatchNoNL {
+				b.WriteString(eol)
+			}
 			pays = append(pays, payment{script(d.spk), d.Amount})
 		}
 		if err = os.WriteFile(filepath.Join(dir, "batch.txt"), []byte(b.String()), 0o600); err != nil {
@@ -979,12 +1024,30 @@ func genCase(t *rapid.T) txCase {
 		c.W.Type = 4
 		c.W.Path = rapid.SampledFrom(hdPaths).Draw(t, "path")
 	}
-	feeStrings := []string{"0", "0.00000001", "0.00001", "0.0001", "0.001", "0.00123456", "0.01", "1"}
+	genFee := func(label string) string {
+		var k uint64
+		switch rapid.IntRange(0, 7).Draw(t, label+"_kind") {
+		case 0:
+			k = rapid.SampledFrom([]uint64{0, 1, 1000, 10000, 100000, 123456, 1000000, 100000000}).Draw(t, label+"_std")
+		case 1, 2: // small, where the float product of the 8-decimal string rounds down
+			k = nextFragile(rapid.Uint64Range(1, 3000).Draw(t, label+"_fs"))
+		case 3, 4: // the same anywhere up to 0.1 BTC
+			k = nextFragile(rapid.Uint64Range(1, 10000000).Draw(t, label+"_fm"))
+		case 5:
+			k = rapid.SampledFrom([]uint64{3, 6, 7, 12, 30000, 15000, 7000, 57, 58, 113, 114}).Draw(t, label+"_known")
+		default:
+			k = rapid.Uint64Range(0, 10000000).Draw(t, label+"_any")
+		}
+		return amountString(k, rapid.IntRange(0, 5).Draw(t, label+"_fmt"))
+	}
 	switch rapid.IntRange(0, 3).Draw(t, "feesrc") {
-	case 0:
-		c.W.CfgFee = rapid.SampledFrom(feeStrings).Draw(t, "cfgfee")
+	case 0, 2:
+		c.W.CfgFee = genFee("cfgfee")
 	case 1:
-		c.FeeFlag = rapid.SampledFrom(feeStrings).Draw(t, "feeflag")
+		c.FeeFlag = genFee("feeflag")
+	}
+	if c.W.CfgFee != "" && rapid.IntRange(0, 3).Draw(t, "feeboth") == 0 {
+		c.FeeFlag = genFee("feeflag2") // the switch overrides the file
 	}
 	fee := feeOf(c)
 
@@ -1124,16 +1187,39 @@ func genCase(t *rapid.T) txCase {
 		left -= amounts[i]
 	}
 	amounts[n-1] = left
+	// two thirds of the non-final amounts move to a nearby value whose 8-decimal string is float-fragile (same
+	// parser as the fee); the last amount keeps the total where it was aimed
+	for i := 0; i < n-1; i++ {
+		if rapid.IntRange(0, 2).Draw(t, "am_fragile") != 0 {
+			if v := nextFragile(amounts[i]); v-amounts[i] < amounts[n-1] {
+				amounts[n-1] -= v - amounts[i]
+				amounts[i] = v
+			}
+		}
+	}
+	if n == 1 && target >= 5 && rapid.Bool().Draw(t, "am_fragile1") {
+		amounts[0] = nextFragile(amounts[0])
+	}
 	if c.SubFee && rapid.IntRange(0, 9).Draw(t, "f_under") != 0 && amounts[0] < fee {
 		// keep -f inside its meaningful domain most of the time: the first amount covers the fee
 		amounts[0] = fee + rapid.Uint64Range(0, 1000).Draw(t, "f_pad")
 	}
 	for i := 0; i < n; i++ {
-		d := dest{spk: genSpk(t, "d", 20), Amount: amounts[i], Fmt: rapid.IntRange(0, 2).Draw(t, "fmt")}
+		d := dest{spk: genSpk(t, "d", 20), Amount: amounts[i], Fmt: rapid.IntRange(0, 5).Draw(t, "fmt")}
+		if rapid.IntRange(0, 3).Draw(t, "pad") == 0 {
+			d.Lead, d.Trail = rapid.IntRange(0, 2).Draw(t, "lead"), rapid.IntRange(0, 3).Draw(t, "trail")
+		}
 		if i < nSend {
 			c.Send = append(c.Send, d)
 		} else {
 			c.Batch = append(c.Batch, d)
+		}
+	}
+	if nBatch > 0 {
+		c.BatchNoNL = rapid.Bool().Draw(t, "batch_nonl")
+		c.BatchCRLF = rapid.IntRange(0, 2).Draw(t, "batch_crlf") == 0
+		if rapid.IntRange(0, 3).Draw(t, "batch_cmt") == 0 {
+			c.BatchComment = rapid.IntRange(1, 1<<uint(nBatch)-1).Draw(t, "batch_cmtmask")
 		}
 	}
 	if rapid.IntRange(0, 9).Draw(t, "change") < 3 {
@@ -1200,6 +1286,36 @@ func TestWalletTx(t *testing.T) {
 			{"-fee", c.FeeFlag != ""}, {"testnet", c.W.Testnet}} {
 			if o.on {
 				r.Class("opt_" + o.name)
+			}
+		}
+		if len(c.Batch) > 0 {
+			if c.BatchNoNL {
+				r.Class("batch_last_line_without_newline")
+			}
+			if c.BatchCRLF {
+				r.Class("batch_crlf")
+			}
+			if c.BatchComment != 0 {
+				r.Class("batch_comment_lines")
+			}
+			if len(c.Batch) == 1 {
+				r.Class("batch_one_line")
+			}
+		}
+		if c.Mode != "raw" {
+			if floatFragile(feeOf(c)) {
+				r.Class("fee_float_fragile")
+			}
+			frag, padded := false, false
+			for _, d := range append(append([]dest{}, c.Send...), c.Batch...) {
+				frag = frag || floatFragile(d.Amount)
+				padded = padded || d.Lead+d.Trail > 0
+			}
+			if frag {
+				r.Class("amount_float_fragile")
+			}
+			if padded {
+				r.Class("spaces_around_pairs")
 			}
 		}
 		if info.outcome == "written" && !info.change {
